@@ -416,3 +416,92 @@ def run_preempted(fa, fb, k, files, timeout=120):
         pre.stop()
     finished = not ta.is_alive() and (tb is None or not tb.is_alive())
     return {"a": res.get("a"), "b": res.get("b"), "errors": errs, "site": pre.parked_at, "count": pre.count, "finished": finished}
+
+
+# ------------------------------------------------------------------ process-environment configurations
+_FILE_CLASS = {}
+_PREFIXES = {}
+
+
+def _file_class(fn):
+    """'stdlib' | 'repo' | 'other' for a code object's file name (cached)."""
+    c = _FILE_CLASS.get(fn)
+    if c is None:
+        if not _PREFIXES:
+            import sysconfig
+            _PREFIXES["repo"] = os.path.join(os.path.realpath(os.environ.get("VP_REPO", "/repo")), "btc_hd_wallet") + os.sep
+            _PREFIXES["stdlib"] = os.path.realpath(sysconfig.get_paths()["stdlib"]) + os.sep
+        # only the PLUMBING between a direct look-up and the interposed door counts as transparent (os.getenv ->
+        # Mapping.get -> __getitem__; hashlib.new): a look-up made by argparse, shutil, locale ... on their own behalf is
+        # not the repository's look-up
+        if fn in ("<frozen os>", "<frozen _collections_abc>") or os.path.basename(fn) in ("os.py", "_collections_abc.py", "hashlib.py"):
+            c = "stdlib"
+        else:
+            rp = os.path.realpath(fn)
+            c = "repo" if rp.startswith(_PREFIXES["repo"]) else "other"
+        _FILE_CLASS[fn] = c
+    return c
+
+
+def _called_from_repo(depth=8):
+    """True iff the nearest caller frame that is not standard-library code (os.py, _collections_abc.py, hashlib.py ...)
+    executes a file of the repository under test (VP_REPO).  Frames of this harness (oracle, probes) are NOT repo code, so
+    an oracle that runs inside a probe callback keeps the real behaviour."""
+    f = sys._getframe(2)
+    for _ in range(depth):
+        if f is None:
+            return False
+        c = _file_class(f.f_code.co_filename)
+        if c == "stdlib":
+            f = f.f_back
+            continue
+        return c == "repo"
+    return False
+
+
+def no_openssl_ripemd160():
+    """CONFIGURATION: an OpenSSL build / provider set-up that does not offer RIPEMD-160 to hashlib (stock OpenSSL 3.0
+    without the legacy provider, FIPS-only set-ups): hashlib.new('ripemd160') raises ValueError and the name is missing
+    from algorithms_available - but only as seen from the repository's own code, so that the oracle keeps its second
+    RIPEMD-160 opinion.  Must be installed BEFORE the package is imported (a capability probe may run at import)."""
+    import hashlib
+    real_new = hashlib.new
+
+    def new(name, *a, **kw):
+        if isinstance(name, str) and name.lower().replace("-", "") in ("ripemd160", "rmd160") and _called_from_repo():
+            raise ValueError("unsupported hash type %s" % name)
+        return real_new(name, *a, **kw)
+    hashlib.new = new
+
+    class _Avail(set):
+        def __contains__(self, item):
+            if isinstance(item, str) and item.lower() in ("ripemd160", "rmd160") and _called_from_repo():
+                return False
+            return set.__contains__(self, item)
+    hashlib.algorithms_available = _Avail(hashlib.algorithms_available)
+
+
+class EnvTaint:
+    """Records the NAMES of environment variables that the repository's own code looks up (os.environ[...] / .get /
+    `in` / os.getenv all end in _Environ.__getitem__), at import time and later.  A library whose answers depend on the
+    process environment has a configuration dimension the inputs cannot reach; the driver re-runs part of the workload with
+    every looked-up variable set."""
+    names = []
+    _installed = False
+
+    @classmethod
+    def install(cls):
+        if cls._installed:
+            return
+        cls._installed = True
+        E = type(os.environ)
+        real = E.__getitem__
+
+        def getitem(self, key):
+            try:
+                if isinstance(key, str) and key not in cls.names and len(cls.names) < 32 and _called_from_repo():
+                    cls.names.append(key)
+            except Exception:  # noqa
+                pass
+            return real(self, key)
+        E.__getitem__ = getitem
